@@ -37,6 +37,10 @@ CONSTANTS
     MultiRead, \* all channels with several readers
     LenVecs,   \* set of input-length vectors (one entry per source) = set of initial states
     Mode,      \* "full": all interleavings; "por": ample-set reduction
+    OpCloseFirst, \* TRUE: Operate closes its output before draining the longer input (code since the fix);
+                 \* FALSE: close deferred until the drain is over (pinned commit)
+    Op3Concurrent, \* TRUE: Operate3 closes its output, then drains its inputs concurrently (since the fix);
+                 \* FALSE: drains a, b, c one after the other and closes afterwards (pinned commit)
     SeedChecked, \* TRUE: EMA/RMA/SMMA check ok on their seed read (code since fix 2ac43f9); FALSE: pinned commit
     W,         \* declared warm-up (idle period) of the pipeline
     Off        \* Off[p] for sinks: documented extra lag of that output (0 normally)
@@ -92,13 +96,15 @@ InitLocal(p, lv) ==
     [] k = "KamaCore" -> L("first", 0, NoTok, <<>>)
     [] k = "Vote" -> IF Len(Ins[p]) > 0 THEN L("rv", 1, NoTok, <<>>) ELSE L("send", 0, ZeroTok, <<>>)
     [] k = "Template" -> L("rd", 1, NoTok, <<>>)
+    [] k = "ADrain" -> L("wait", 0, NoTok, <<>>)
     [] OTHER -> L("recv", 0, NoTok, <<>>)
 
 \* The pending operation <<type, channel>> of local state l of process p.
 OpOf(p, l) ==
   LET k == Kind[p]  pc == l.pc IN
   CASE pc = "done"  -> <<"none", 0>>
-    [] pc = "close" -> <<"close", 0>>
+    [] pc \in {"close", "ca", "cb", "c3"} -> <<"close", 0>>
+    [] pc = "wait" -> <<"wait", Par[p]>>
     [] pc \in {"send", "fill", "echo", "send0"} ->
           IF k = "Dup" THEN <<"send", Outs[p][l.i]>> ELSE <<"send", Outs[p][1]>>
     [] pc \in {"recv", "skip", "drain", "ra", "da", "first", "rc", "dc", "rd"} -> <<"recv", Ins[p][1]>>
@@ -116,7 +122,7 @@ LastN(s, n) == IF Len(s) <= n THEN s ELSE SubSeq(s, Len(s) - n + 1, Len(s))
 AfterOk(p, tok) ==
   LET l == proc[p]  k == Kind[p]  pc == l.pc IN
   CASE k = "Sink" -> L("recv", l.i + 1, NoTok, <<>>)
-    [] k = "Drain" -> L("recv", 0, NoTok, <<>>)
+    [] k \in {"Drain", "ADrain"} -> L("recv", 0, NoTok, <<>>)
     [] k \in {"Map", "Shift", "Skip"} /\ pc = "recv" -> L("send", l.i, Relabel(p, tok), <<>>)
     [] k = "Skip" /\ pc = "skip" ->
           IF l.i + 1 = Par[p] THEN L("recv", 0, NoTok, <<>>) ELSE L("skip", l.i + 1, NoTok, <<>>)
@@ -150,7 +156,7 @@ AfterOk(p, tok) ==
 \* Local state after a receive that found the channel closed and empty.
 AfterClosed(p) ==
   LET l == proc[p]  k == Kind[p]  pc == l.pc IN
-  CASE k \in {"Sink", "Drain"} -> L("done", l.i, NoTok, <<>>)
+  CASE k \in {"Sink", "Drain", "ADrain"} -> L("done", l.i, NoTok, <<>>)
     [] k = "Skip" /\ pc = "skip" -> L("recv", 0, NoTok, <<>>)
     [] k = "First" /\ pc = "drain" -> L("done", 0, NoTok, <<>>)
     [] k = "Last" ->
@@ -159,13 +165,16 @@ AfterClosed(p) ==
           IF Par[p] * Par2[p] > 0
           THEN L("echo", 0, IF Len(l.r) = Par[p] THEN l.r[1] ELSE ZeroTok, l.r)
           ELSE L("close", 0, NoTok, <<>>)
-    [] k = "Operate" /\ pc = "ra" -> L("db", 0, NoTok, <<>>)
-    [] k = "Operate" /\ pc = "rb" -> L("da", 0, NoTok, <<>>)
-    [] k = "Operate" /\ pc \in {"da", "db"} -> L("close", 0, NoTok, <<>>)
-    [] k = "Operate3" /\ pc \in {"ra", "rb", "rc3"} -> L("da", 0, NoTok, <<>>)
+    [] k = "Operate" /\ pc = "ra" -> IF OpCloseFirst THEN L("cb", 0, NoTok, <<>>) ELSE L("db", 0, NoTok, <<>>)
+    [] k = "Operate" /\ pc = "rb" -> IF OpCloseFirst THEN L("ca", 0, NoTok, <<>>) ELSE L("da", 0, NoTok, <<>>)
+    [] k = "Operate" /\ pc \in {"da", "db"} ->
+          IF OpCloseFirst THEN L("done", 0, NoTok, <<>>) ELSE L("close", 0, NoTok, <<>>)
+    [] k = "Operate3" /\ pc \in {"ra", "rb", "rc3"} ->
+          IF Op3Concurrent THEN L("c3", 0, NoTok, <<>>) ELSE L("da", 0, NoTok, <<>>)
     [] k = "Operate3" /\ pc = "da" -> L("db", 0, NoTok, <<>>)
     [] k = "Operate3" /\ pc = "db" -> L("dc3", 0, NoTok, <<>>)
-    [] k = "Operate3" /\ pc = "dc3" -> L("close", 0, NoTok, <<>>)
+    [] k = "Operate3" /\ pc = "dc3" ->
+          IF Op3Concurrent THEN L("done", 0, NoTok, <<>>) ELSE L("close", 0, NoTok, <<>>)
     [] k = "XmaCore" /\ pc = "seed" ->                                 \* no seed: return (fix 2ac43f9);
           IF SeedChecked THEN L("close", 0, NoTok, <<>>)                \* before it: ok ignored, a zero was sent
                          ELSE L("send0", 0, ZeroTok, <<>>)
@@ -206,7 +215,12 @@ AfterSent(p, lv) ==
 
 \* Local state after close: First drains its input afterwards, everything else is finished.
 AfterClose(p) ==
-  IF Kind[p] = "First" THEN L("drain", 0, NoTok, <<>>) ELSE L("done", 0, NoTok, <<>>)
+  LET pc == proc[p].pc IN
+  CASE Kind[p] = "First" -> L("drain", 0, NoTok, <<>>)
+    [] pc = "cb" -> L("db", 0, NoTok, <<>>)       \* Operate (fixed): close, then drain the other input
+    [] pc = "ca" -> L("da", 0, NoTok, <<>>)
+    [] pc = "c3" -> L("dc3", 0, NoTok, <<>>)      \* Operate3 (fixed): close, spawn drains of a and b, drain c
+    [] OTHER -> L("done", 0, NoTok, <<>>)
 
 Pack(p, l) == LET o == OpOf(p, l) IN
   [pc |-> l.pc, i |-> l.i, v |-> l.v, r |-> l.r, t |-> o[1], c |-> o[2]]
@@ -224,6 +238,7 @@ CanFire(p) ==
                       \/ closed[c]
                       \/ (Cap[c] = 0 /\ SenderReady(c))
     [] t = "close" -> TRUE
+    [] t = "wait"  -> proc[c].pc \in {"close", "c3", "dc3", "done"}    \* the spawning stage left its loop
     [] OTHER -> FALSE
 
 \* A rendezvous is one step and is owned by the receiver, so every step has one owner.
@@ -266,6 +281,9 @@ Fire(p) ==
             /\ buf' = [buf EXCEPT ![c] = Append(@, proc[p].v)]
             /\ proc' = [proc EXCEPT ![p] = Pack(p, AfterSent(p, lens))]
             /\ UNCHANGED <<closed, out, ran>>
+       [] t = "wait" ->
+            /\ proc' = [proc EXCEPT ![p] = Pack(p, L("recv", 0, NoTok, <<>>))]
+            /\ UNCHANGED <<buf, closed, out, ran>>
        [] t = "close" ->
             /\ closed' = [x \in Chans |-> closed[x] \/ (\E j \in 1..Len(Outs[p]) : Outs[p][j] = x)]
             /\ proc' = [proc EXCEPT ![p] = Pack(p, AfterClose(p))]
